@@ -275,6 +275,13 @@ def gen_pool(rng, theme="general"):
         add("optimize-path-list", optimize=[list(p) for p in lin], as_list=True)
         other = gen.tree_to_ssa(gen.rand_tree(rng, n), n)
         add("optimize-other-path", optimize=[list(int(i) for i in p) for p in ssa_to_linear(other, n)])
+    if n > 1:
+        # an explicit *edge* path: an order of index labels to eliminate (interface.py is_edge_path); sequences
+        # mix it with explicit linear paths of the same container type (dispatch memo keyed on the class)
+        ep = sorted(net.sizes)
+        rng.shuffle(ep)
+        add("optimize-edge-path", optimize={"edge": ep})
+        add("optimize-edge-path-list", optimize={"edge": ep}, as_list=True)
     if n > 1 and rng.random() < 0.5:
         add("optimize-invalid-path", optimize=[[0, n + 3]])   # both cached and uncached calls must fail alike
     add("kw-strip_exponent", kwargs={"strip_exponent": True})
@@ -368,6 +375,9 @@ def _materialise(spec):
     opt = spec["optimize"]
     if isinstance(opt, list):
         opt = [tuple(list(p)) for p in opt]
+        opt = list(opt) if spec["as_list"] is True else tuple(opt)
+    elif isinstance(opt, dict):
+        opt = [_lab(kind, i) for i in opt["edge"]]
         opt = list(opt) if spec["as_list"] is True else tuple(opt)
     return net, ins, out, shapes, opt
 
@@ -550,6 +560,12 @@ def _clear_all_caches():
     cu = sys.modules["cotengra.utils"]
     ci._PATH_CACHE.clear()
     ci._CONTRACT_EXPR_CACHE.clear()
+    # the dispatch memos keyed on the *type* of `optimize` (interface.py:158, 335) are caches too: the
+    # uncached reference starts every call without them (what a fresh process would do)
+    for name in ("_find_path_handlers", "_find_tree_handlers"):
+        d = getattr(ci, name, None)
+        if isinstance(d, dict):
+            d.clear()
     for mod in (cc, cu, ci):
         for name in dir(mod):
             f = getattr(mod, name)
@@ -610,12 +626,13 @@ def _same_pair(v, w):
     return a.shape == b.shape and np.allclose(a, b, rtol=1e-9, atol=1e-9, equal_nan=True)
 
 
-def _valid_path(n, path):
+def _valid_path(n, path, complete=True):
     for s in path:
-        if not s or len(set(s)) != len(s) or any(i < 0 or i >= n for i in s):
+        if not isinstance(s, (list, tuple)) or not s or len(set(s)) != len(s) or \
+                any((not isinstance(i, int)) or i < 0 or i >= n for i in s):
             return False
         n = n - len(s) + 1
-    return n == 1
+    return n == 1 or not complete
 
 
 def _component_diff(fa, fb):
@@ -703,11 +720,13 @@ def check_history(ctx, drv, hist):
                 continue
         if "path" in o:
             n = len(spec["net"]["inputs"])
-            if not isinstance(spec["optimize"], list) and not _valid_path(n, o["path"]):
+            # (an edge path over a disconnected network leaves several tensors: positions must exist, that is all)
+            if not isinstance(spec["optimize"], list) and \
+                    not _valid_path(n, o["path"], complete=not isinstance(spec["optimize"], dict)):
                 # (an explicit path is handed back verbatim, valid or not -- cached or not)
                 bad.append((i, site, "invalid-path", {"path": o["path"], "N": n}, {"component": comp}))
                 continue
-            if spec["optimize"] in ("greedy", "optimal") or isinstance(spec["optimize"], list):
+            if isinstance(spec["optimize"], (list, dict)) or spec["optimize"] in ("greedy", "optimal"):
                 if o["path"] != t["path"]:
                     bad.append((i, site, "wrong-path", {"cached": o["path"], "uncached": t["path"]},
                                 {"component": comp}))
